@@ -1,7 +1,12 @@
 package main
 
 import (
+	"fmt"
+	"sort"
 	"strings"
+
+	"evylang.dev/evy/pkg/evaluator"
+	"evylang.dev/evy/pkg/parser"
 )
 
 // C02 — accepted programs never go wrong.
@@ -14,11 +19,14 @@ import (
 // a violation by itself.  Classification:
 //   - wt rejects and Go crashes  -> property violation, key "wt-reject:<reason>"
 //     (a hole of the Go checker, predicted by the verified checker)
-//   - wt accepts inside the proved Stage-1 fragment and Go crashes
-//     -> correspondence violation "stage1-crash" (contradicts C02_soundness_partial:
-//     the model or the export is wrong)
+//   - wt accepts inside the proved fragment (Static.s2_program: everything except the
+//     un-modelled built-ins; the answer is "(wt true <in s2> <in s1>)") and Go crashes
+//     -> correspondence violation "stage1-crash" (contradicts C02_soundness_modulo_overflow_partial /
+//     C02_handlers_modulo_overflow_partial: the model or the export is wrong; a stack overflow on a
+//     cyclic value kills the process and is not seen here)
 //   - wt accepts outside the fragment and Go crashes -> property violation,
-//     key "wt-accept:<panic class>" (Stage 2 is not proved)
+//     key "wt-accept:<panic class>" (not proved)
+//   - after a normal run one well-formed event is delivered to every declared handler
 //   - wt rejects and Go runs fine -> only counted ("wt-stricter:<reason>")
 // The cyclic-value program (a[0] = a / print a) kills the process with a stack
 // overflow that recover cannot catch; it is listed in findings.d and not run here.
@@ -58,6 +66,38 @@ func c02PanicClass(o RunOutcome) string {
 	return strings.ReplaceAll(t, " ", "_")
 }
 
+// c02Events delivers one event with the event's full payload to every handler the
+// program declares; it returns a non-empty class when a handler goes wrong.
+func c02Events(ev *evaluator.Evaluator, hs map[string]*parser.EventHandlerStmt) (class, text string) {
+	payload := map[string][]any{
+		"key": {"a"}, "down": {1.0, 2.0}, "up": {1.0, 2.0}, "move": {3.0, 4.0},
+		"animate": {16.0}, "input": {"id", "val"},
+	}
+	names := make([]string, 0, len(hs))
+	for n := range hs {
+		names = append(names, n)
+	}
+	sort.Strings(names)
+	for _, n := range names {
+		func() {
+			defer func() {
+				if rec := recover(); rec != nil {
+					class, text = "gopanic", fmt.Sprint(rec)
+				}
+			}()
+			ev.Stopped = false
+			err := ev.HandleEvent(evaluator.Event{Name: n, Params: payload[n]})
+			if c := classifyErr(err); c == "internal" {
+				class, text = c, err.Error()
+			}
+		}()
+		if class != "" {
+			return
+		}
+	}
+	return
+}
+
 func runC02WT(cfg Config, r *Result) {
 	model, err := StartModel("static")
 	if err != nil {
@@ -70,7 +110,9 @@ func runC02WT(cfg Config, r *Result) {
 	progs = append(progs, CorpusPrograms()...)
 	n := cfg.N(1500, 40000)
 	for i := 0; i < n; i++ {
-		src, _, _ := GenProgram(cfg.Rng, GenOpts{MaxStmts: 8, MaxDepth: 2, Funcs: i%2 == 0, Specials: true, Gfx: true, MapLitPure: true})
+		// the whole proved fragment: functions, event handlers, read, empty literals in arbitrary positions
+		src, _, _ := GenProgram(cfg.Rng, GenOpts{MaxStmts: 8, MaxDepth: 2, Funcs: i%2 == 0, Handlers: i%3 == 0, Reads: i%5 == 0,
+			Empties: i%4 == 0, Tests: i%7 == 0, Specials: true, Gfx: true, MapLitPure: true})
 		progs = append(progs, src)
 	}
 	for _, src := range progs {
@@ -100,8 +142,15 @@ func runC02WT(cfg Config, r *Result) {
 		wt := strings.HasPrefix(ans, "(wt true")
 		s1 := strings.HasPrefix(ans, "(wt true true")
 		reason := strings.TrimSuffix(strings.TrimPrefix(ans, "(wt false "), ")")
-		out := RunEvy(src, RunOpts{YieldBudget: 200000, NoSummary: true})
+		out := RunEvy(src, RunOpts{YieldBudget: 200000, NoSummary: true, Input: []string{"1", "abc"}})
 		crashed := out.Class == "gopanic" || out.Class == "internal"
+		if !crashed && out.Class == "ok" && out.Eval != nil && len(prog.EventHandlers) > 0 {
+			// C02_handlers_partial: one well-formed event per declared handler, in the state the run left
+			if c, txt := c02Events(out.Eval, prog.EventHandlers); c != "" {
+				crashed = true
+				out.Class, out.GoPanic = c, txt
+			}
+		}
 		r.Count(src, true)
 		r.Validated++
 		switch {
